@@ -315,7 +315,7 @@ def decide(pid, tier, seed, replay=None):
             violations.append(("translator", gen_info.get("error", "translator failed"), None, False))
 
     # 2. proofs
-    targets = ["Props/%s.vo" % pid, "Check/%s.vo" % pid]
+    targets = ["Props/%s.vo" % pid, "Check/%s.vo" % pid, "Check/Float.vo", "Proofs/Generic.vo"]
     ok, log = coq_make(targets)
     proof_ok = os.path.exists(os.path.join(COQ, "Props", pid + ".vo")) and ok
     check_ok = os.path.exists(os.path.join(COQ, "Check", pid + ".vo"))
